@@ -30,7 +30,11 @@ function safeJson(x) {
     });
     return out === undefined ? String(x) : out;
   } catch {
-    return String(x);
+    try {
+      return String(x);
+    } catch {
+      return Object.prototype.toString.call(x); // no toString / valueOf at all (Object.create(null))
+    }
   }
 }
 
@@ -171,6 +175,27 @@ export async function run(ctx) {
       }
     }
   }
+  // very large containers of wrong items: a report of at most ten errors, no throw
+  if (ctx.shard === 1 % ctx.of) {
+    const { bulkValues, BULK_PROGRAM } = await import("../gen/valgen.mjs");
+    const r = await compileText(ctx, BULK_PROGRAM);
+    if (!r.parsers) throw new Error("C12 bulk program does not compile");
+    for (const [vn, v] of bulkValues())
+      for (const [pn, parser] of Object.entries(r.parsers))
+        for (const o of OPTION_SETS) {
+          let rejected;
+          try {
+            rejected = !parser.validate(v, o);
+          } catch {
+            rejected = true;
+          }
+          if (!rejected) continue;
+          const f = checkRejected(parser, pn, v, o);
+          ctx.judged();
+          ctx.count("bulk_rejected_judged");
+          if (f) ctx.violation({ signature: `${f.clause}|bulk:${pn}:${vn}${o.disallowExtraProperties ? "|strict" : ""}`, clause: f.clause, detail: `${f.detail} :: parser ${pn} of the bulk program on ${vn}`, replay: { kind: "bulk", parser: pn, value: vn, options: o } });
+        }
+  }
   const nProgs = ctx.share(1200, 40000);
   const seen = new Map();
   for await (const item of corpus(ctx, { label: "C12", count: nProgs, features: FEATURES })) {
@@ -215,6 +240,13 @@ export async function run(ctx) {
 }
 
 export async function replay(ctx, c) {
+  if (c.kind === "bulk") {
+    const { bulkValues, BULK_PROGRAM } = await import("../gen/valgen.mjs");
+    const r = await compileText(ctx, BULK_PROGRAM);
+    const v = bulkValues().find(([n]) => n === c.value)[1];
+    const f = checkRejected(r.parsers[c.parser], c.parser, v, c.options ?? {});
+    return { violated: !!f, fault: f, value: c.value };
+  }
   const r = await compileText(ctx, c.text);
   if (!r.parsers) return { violated: true, note: "does not compile", outcome: r.res.outcome };
   const v = fromEjson(c.value);
